@@ -583,16 +583,14 @@ static void run_size(const Case& c) {
     VFAIL("size-throws", "format_size(", s, ", ", ib, ") threw ", typeid(e).name(), errno_note(en));
   }
   std::string what = cat("format_size(", s, ", ", ib ? "true" : "false", ") = \"", text, "\"", errno_note(en));
-  if (s < 1024) {
-    VCHECK(text == cat(s, " bytes"), "size-bytes-form", what);
+  // plain byte count ("<s> bytes"; "1 byte" is as good): exact, and parse_size reads it back exactly
+  if (text == cat(s, " bytes") || text == cat(s, " byte")) {
     uint64_t back = parse_checked(text, en, "size-parse-throws");
     VCHECK(back == s, "size-parse-bytes", what, " parse_size gives ", back);
+    if (s >= 1024) ctx().cls("size:plain byte count for a size of 1 KB or more");
     return;
   }
-  // the unit whose true mantissa lies in [1, 1024): 1024^k <= s < 1024^(k+1), EB at most
-  unsigned k = 1;
-  while (k < 6 && (s >> (10 * (k + 1))) != 0) k++;
-  u128 unit = static_cast<u128>(1) << (10 * k);
+  VCHECK(s >= 512, "size-bytes-form", what, " (neither a plain byte count nor a size that a KB mantissa with two decimals can carry)");
   std::string mant = text;
   if (ib) {
     std::string head = cat(s, " bytes (");
@@ -609,8 +607,19 @@ static void run_size(const Case& c) {
     m100 = m100 * 10 + static_cast<unsigned>(mant[i] - '0');
   }
   VCHECK(mant[dot + 3] == ' ' && mant[dot + 5] == 'B', "size-mantissa-form", what);
-  VCHECK(mant[dot + 4] == kUnitLetters[k], "size-unit", what, " expected unit ", kUnitLetters[k], "B (1024^", k, " <= size < 1024^", k + 1, ")");
-  VCHECK(m100 >= 100 && m100 <= 102400, "size-mantissa-range", what, " mantissa outside [1,1024]");
+  // which unit is chosen is the formatter's business ("1024.00 KB" and "1.00 MB" both say 1048575 to the printed precision): the
+  // printed unit is taken as it comes and the value clause below is applied with it
+  unsigned k = 0;
+  for (unsigned j = 1; j <= 6; j++)
+    if (mant[dot + 4] == kUnitLetters[j]) k = j;
+  VCHECK(k != 0, "size-unit", what, " unknown unit letter");
+  u128 unit = static_cast<u128>(1) << (10 * k);
+  {
+    unsigned kk = 1;
+    while (kk < 6 && (s >> (10 * (kk + 1))) != 0) kk++;
+    if (kk != k) ctx().cls("size:unit differs from the one with a mantissa in [1,1024)");
+  }
+  VCHECK(m100 <= 102400, "size-mantissa-range", what, " mantissa above 1024");
   // faithful: |m*U - s| <= 0.005 U + 2^-23 s   (x 100 x 2^23, exact in 128 bits)
   u128 a = static_cast<u128>(m100) * unit, b = static_cast<u128>(s) * 100;
   u128 diff = a > b ? a - b : b - a;
